@@ -72,7 +72,8 @@ def register(E):
     def best_match(I, ctx, acc, offered, default=None):
         r = Z.func('BEST_MATCH', Z.Obj, Z.Obj)(acc.z)
         return VObj(r)
-    E.add_opaque(OpaqueClass('MIMEAccept', methods={'best_match': best_match}, truthy=None))
+    if 'MIMEAccept' not in E.opaque:        # contracts/errors.py (C09) owns the model when it is loaded
+        E.add_opaque(OpaqueClass('MIMEAccept', methods={'best_match': best_match}, truthy=None))
     E.opaque['Request'].attrs['accept_mimetypes'] = TObj('MIMEAccept', inv=lambda a: a != Z.NONE)
     if 'Args' not in E.opaque:
         def args_get(I, ctx, args, key, default=None, type=None):
